@@ -1217,7 +1217,21 @@ struct RebuildParams<'a> {
     list_only: bool,
 }
 
+/// Fail early when an archive's file tables could not be loaded. `Archive::open` only logs a warning in
+/// that case and every later lookup finds nothing, so commands that process "all files" would report
+/// success on an archive they could not read.
+fn ensure_tables_readable(path: &str) -> Result<()> {
+    let archive = Archive::open(path).with_context(|| format!("Failed to open archive: {path}"))?;
+    let classic = archive.hash_table().is_some() && archive.block_table().is_some();
+    let extended = archive.het_table().is_some() && archive.bet_table().is_some();
+    if !classic && !extended {
+        anyhow::bail!("Archive {path} is damaged: neither hash/block nor HET/BET tables could be read");
+    }
+    Ok(())
+}
+
 fn rebuild_mpq_archive(params: RebuildParams<'_>) -> Result<()> {
+    ensure_tables_readable(params.source_path)?;
     // Parse compression override if provided
     let override_compression = if let Some(comp) = params.compression {
         let compression_flags = match comp.as_str() {
@@ -1327,6 +1341,8 @@ struct DebugParams<'a> {
 }
 
 fn compare_archives(params: CompareParams<'_>) -> Result<()> {
+    ensure_tables_readable(params.source_path)?;
+    ensure_tables_readable(params.target_path)?;
     let spinner = create_spinner("Comparing archives...");
 
     let comparison_result = mpq_compare_archives(
